@@ -88,13 +88,13 @@ func (s Str) String() string {
 
 // Obj is a heap object: a flat vector of one-cell values.
 type Obj struct {
-	cells  []Value
-	n      int
-	sparse map[int]Value // when cells == nil
-	zero   Value
-	epoch  int
-	id     int
-	typ    types.Type
+	cells []Value
+	n     int
+	pages [][]Value // when cells == nil: pages of pageSize cells, nil = all zero
+	zero  Value
+	epoch int
+	id    int
+	typ   types.Type
 }
 
 // Ptr is a pointer into an object (cell offset). A nil pointer has obj==nil.
@@ -351,7 +351,7 @@ func (e *Engine) newArrayObj(et types.Type, n int) *Obj {
 	o := &Obj{n: n * es, epoch: e.epoch, id: e.nextObj, typ: et}
 	e.nextObj++
 	if n*es > sparseThreshold && es == 1 && !isAgg(et) {
-		o.sparse = map[int]Value{}
+		o.pages = make([][]Value, (n*es+pageSize-1)/pageSize)
 		o.zero = zeroCell(et)
 		return o
 	}
@@ -382,10 +382,33 @@ func (o *Obj) get(i int) Value {
 	if o.cells != nil {
 		return o.cells[i]
 	}
-	if v, ok := o.sparse[i]; ok {
-		return v
+	if pg := o.pages[i>>pageBits]; pg != nil {
+		return pg[i&(pageSize-1)]
 	}
 	return o.zero
+}
+
+const pageBits = 12
+const pageSize = 1 << pageBits
+
+// put stores without journaling (fresh objects and undo)
+func (o *Obj) put(i int, v Value) {
+	if o.cells != nil {
+		o.cells[i] = v
+		return
+	}
+	pg := o.pages[i>>pageBits]
+	if pg == nil {
+		if sameValue(v, o.zero) {
+			return
+		}
+		pg = make([]Value, pageSize)
+		for k := range pg {
+			pg[k] = o.zero
+		}
+		o.pages[i>>pageBits] = pg
+	}
+	pg[i&(pageSize-1)] = v
 }
 
 type journalEntry struct {
@@ -404,18 +427,9 @@ func (e *Engine) set(o *Obj, i int, v Value) {
 		panic(fmt.Sprintf("internal: cell %d out of %d", i, o.n))
 	}
 	if o.epoch < e.epoch {
-		if o.cells != nil {
-			e.journal = append(e.journal, journalEntry{o: o, i: i, old: o.cells[i], had: true})
-		} else {
-			old, had := o.sparse[i]
-			e.journal = append(e.journal, journalEntry{o: o, i: i, old: old, had: had})
-		}
+		e.journal = append(e.journal, journalEntry{o: o, i: i, old: o.get(i), had: true})
 	}
-	if o.cells != nil {
-		o.cells[i] = v
-	} else {
-		o.sparse[i] = v
-	}
+	o.put(i, v)
 }
 
 func (e *Engine) undoJournal() {
@@ -423,13 +437,7 @@ func (e *Engine) undoJournal() {
 		j := e.journal[k]
 		switch {
 		case j.o != nil:
-			if j.o.cells != nil {
-				j.o.cells[j.i] = j.old
-			} else if j.had {
-				j.o.sparse[j.i] = j.old
-			} else {
-				delete(j.o.sparse, j.i)
-			}
+			j.o.put(j.i, j.old)
 		case j.m != nil:
 			j.m.entries = j.me
 			j.m.saved = false
